@@ -255,10 +255,22 @@ func runC18Struct(c *Ctx) {
 		fn := FuncName(f)
 		// count comparison: a `!=` between two calls of the same Num*/Length accessor on $1 and $2 leading to return false
 		countCmp, ctypeCmp := false, false
+		// the comparisons must be unconditional: on every path to the element-wise delegation
+		var delegations []ssa.Instruction
+		eachCall(f, func(call ssa.CallInstruction) {
+			if n := calleeName(call); strings.HasSuffix(n, ".structureEq") || (nme == "lineStringsEq" && strings.Contains(n, "lineStringsEq$")) {
+				delegations = append(delegations, call)
+			}
+		})
 		eachInstr(f, func(in ssa.Instruction) {
 			bo, ok := in.(*ssa.BinOp)
 			if !ok || (bo.Op.String() != "!=" && bo.Op.String() != "==") {
 				return
+			}
+			for _, d := range delegations {
+				if !instrDominates(bo, d) {
+					return
+				}
 			}
 			cx, okx := stripLoad(bo.X).(*ssa.Call)
 			cy, oky := stripLoad(bo.Y).(*ssa.Call)
@@ -287,7 +299,7 @@ func runC18Struct(c *Ctx) {
 			calls := callsTo(f, "geom.(exactEqualsComparator).lineStringsEq")
 			c.Check(len(calls) >= 1, f.Pos(), fn, "coordinates type compared", "through lineStringsEq on the exterior rings, which carry the polygon's coordinates type even when empty", "polygonsEq no longer compares the exterior rings")
 		} else {
-			c.Check(ctypeCmp, f.Pos(), fn, "coordinates type compared", "CoordinatesType() of both operands compared", "the comparator does not compare the coordinates types (an XY and an XYZ empty collection would be 'equal')")
+			c.Check(ctypeCmp, f.Pos(), fn, "coordinates type compared", "CoordinatesType() of both operands compared", "the comparator does not compare the coordinates types on every path to the element-wise comparison (an XY and an XYZ collection of empty members would be 'equal')")
 		}
 	}
 }
